@@ -297,7 +297,13 @@ def decode_block(data: bytes, e: BatEntry, bo: str) -> dict:
             nrows = c.u32()
             npix = c.u64()
             res['n_rows'], res['n_pixels'] = nrows, npix
-            raw = c.take(nrows * npix * 4)
+            need = nrows * npix * 4
+            if c.p + need > c.end and 0 < nrows <= 64:
+                # short block: keep the complete pixels that ARE there (diagnostics for the caller)
+                k = (c.end - c.p) // (4 * nrows)
+                part = np.frombuffer(c.d[c.p:c.p + k * 4 * nrows], dtype=np.dtype('f4').newbyteorder(c.bo))
+                res['pix_partial'] = part.astype('f4').reshape((nrows, k), order='F')
+            raw = c.take(need)
             arr = np.frombuffer(raw, dtype=np.dtype('f4').newbyteorder(c.bo)).astype('f4')
             res['pix'] = arr.reshape((nrows, npix), order='F')
             res['decoded_type'] = 'pix'
